@@ -115,3 +115,179 @@ Proof.
     destruct (X x Hh) as [Hp|Hq]; [|exact Hq]. exfalso.
     assert (N : ~ sat_sys p x) by (apply not_sat_sys_piece; now exists c). contradiction.
 Qed.
+
+(* ---------- time elapse: the generated set is the least polyhedron containing { p + t q } ---------- *)
+Lemma dot_prefix l : forall (x y : point) k, (forall i, (k <= i < k + length l)%nat -> x i == y i) -> dot l x k == dot l y k.
+Proof.
+  induction l as [|a l IH]; intros x y k H; cbn [dot]; [reflexivity|].
+  rewrite (H k) by (cbn [length]; lia). rewrite (IH x y (S k)) by (intros i Hi; apply H; cbn [length]; lia). reflexivity.
+Qed.
+
+Lemma dot_lin l (p q : point) t : forall k, dot l (fun i => p i + t * q i) k == dot l p k + t * dot l q k.
+Proof. induction l as [|a l IH]; intros k; cbn [dot]; [ring|]. rewrite IH. ring. Qed.
+
+Definition hom_c (c : cstr) : cstr := {| coefs := coefs c; cst := 0; strict := false |}.
+
+Lemma gF_hom c g : gF (hom_c c) g == hval (coefs c) g.
+Proof. unfold gF, hom_c; cbn [coefs cst]. change (inject_Z 0) with 0. ring. Qed.
+
+Lemma wf_dir_of g0 : forall g, In g (dir_of g0) -> match gk g with GPoint | GClosure => (0 < gdiv g)%Z | _ => True end.
+Proof.
+  intros g Hg. unfold dir_of in Hg. destruct (gk g0) eqn:K.
+  - destruct Hg as [<-|[]]. now rewrite K.
+  - destruct Hg as [<-|[]]. now rewrite K.
+  - destruct (all_zero_z (gcoefs g0)); [destruct Hg|]. destruct Hg as [<-|[]]. exact I.
+  - destruct (all_zero_z (gcoefs g0)); [destruct Hg|]. destruct Hg as [<-|[]]. exact I.
+Qed.
+
+Lemma wf_te_gens G1 G2 : wf_gens G1 -> wf_gens (te_gens G1 G2).
+Proof.
+  intros W g Hg. unfold te_gens in Hg. apply in_app_or in Hg. destruct Hg as [Hg|Hg]; [now apply W|].
+  apply in_flat_map in Hg. destruct Hg as [g0 [_ Hg]]. now apply (wf_dir_of g0).
+Qed.
+
+Lemma gen_ok_dir c g0 : gen_ok (hom_c c) g0 -> forall g, In g (dir_of g0) -> gen_ok c g.
+Proof.
+  intros H g Hg. pose proof (gF_hom c g0) as E. unfold gen_ok in H. cbn [hom_c strict] in H.
+  unfold dir_of in Hg. destruct (gk g0) eqn:K.
+  - destruct Hg as [<-|[]]. unfold gen_ok. rewrite K. unfold gF, pc_weight. rewrite K. change (inject_Z 0) with 0. lra.
+  - destruct Hg as [<-|[]]. unfold gen_ok. rewrite K. unfold gF, pc_weight. rewrite K. change (inject_Z 0) with 0. lra.
+  - destruct (all_zero_z (gcoefs g0)); [destruct Hg|]. destruct Hg as [<-|[]].
+    unfold gen_ok, gF, pc_weight; cbn [gk]. change (inject_Z 0) with 0.
+    assert (X : hval (coefs c) {| gk := GRay; gcoefs := gcoefs g0; gdiv := 1 |} == hval (coefs c) g0) by reflexivity.
+    rewrite X. lra.
+  - destruct (all_zero_z (gcoefs g0)); [destruct Hg|]. destruct Hg as [<-|[]].
+    unfold gen_ok, gF, pc_weight; cbn [gk]. change (inject_Z 0) with 0.
+    assert (X : hval (coefs c) {| gk := GRay; gcoefs := gcoefs g0; gdiv := 1 |} == hval (coefs c) g0) by reflexivity.
+    rewrite X. lra.
+Qed.
+
+Lemma te_ineq_valid n G1 G2 c :
+  wf_gens G1 -> wf_gens G2 -> (length (coefs c) <= n)%nat ->
+  (forall g, In g G1 -> (length (gcoefs g) <= n)%nat) -> (forall g, In g G2 -> (length (gcoefs g) <= n)%nat) ->
+  (exists p, in_gens n G1 p) -> (exists q, in_gens n G2 q) ->
+  (forall x, time_elapse_set n G1 G2 x -> sat c x) ->
+  forall x, in_gens n (te_gens G1 G2) x -> sat c x.
+Proof.
+  intros W1 W2 Lc L1 L2 [p1 Hp1] [q0 Hq0] Hall x Hx.
+  (* valid on P *)
+  assert (VP : forall p, in_gens n G1 p -> sat c p).
+  { intros p Hp. apply Hall. exists p, q0, 0. split; [exact Hp|]. split; [exact Hq0|]. split; [lra|]. intros i _. ring. }
+  (* the homogeneous part is non-negative on Q *)
+  assert (VQ : forall q, in_gens n G2 q -> sat (hom_c c) q).
+  { intros q Hq. unfold sat, eval, hom_c; cbn [coefs cst strict]. change (inject_Z 0) with 0.
+    set (h := dot (coefs c) q 0). destruct (Qlt_le_dec h 0) as [Hn|Hp]; [exfalso|lra].
+    set (e1 := eval c p1). pose proof (VP p1 Hp1) as S1. unfold sat in S1. fold e1 in S1.
+    assert (E1 : 0 <= e1) by (destruct (strict c); lra).
+    set (t := (e1 + 1) / - h). assert (Ht : 0 <= t) by (unfold t; apply Qle_shift_div_l; lra).
+    assert (Et : t * h == - (e1 + 1)) by (unfold t; field; lra).
+    assert (Hin : time_elapse_set n G1 G2 (fun i => p1 i + t * q i)).
+    { exists p1, q, t. split; [exact Hp1|]. split; [exact Hq|]. split; [exact Ht|]. intros i _. reflexivity. }
+    apply Hall in Hin. unfold sat, eval in Hin. pose proof (dot_lin (coefs c) p1 q t 0%nat) as DL. fold h in DL.
+    unfold e1, eval in *. set (d1 := dot (coefs c) p1 0) in *. set (b := inject_Z (cst c)) in *.
+    set (z := dot (coefs c) (fun i => p1 i + t * q i) 0) in *.
+    clearbody z d1 h t b. destruct (strict c); nra. }
+  apply (gens_valid_sound n c (te_gens G1 G2) (wf_te_gens G1 G2 W1) Lc); [|exact Hx].
+  intros g Hg. unfold te_gens in Hg. apply in_app_or in Hg. destruct Hg as [Hg|Hg].
+  - exact (gens_valid_complete n c G1 W1 Lc L1 (ex_intro _ p1 Hp1) VP g Hg).
+  - apply in_flat_map in Hg. destruct Hg as [g0 [Hg0 Hg]].
+    apply (gen_ok_dir c g0); [|exact Hg].
+    exact (gens_valid_complete n (hom_c c) G2 W2 Lc L2 (ex_intro _ q0 Hq0) VQ g0 Hg0).
+Qed.
+
+Theorem time_elapse_least n G1 G2 (t : sys) :
+  wf_gens G1 -> wf_gens G2 -> wf_sys_dim n t ->
+  (forall g, In g G1 -> (length (gcoefs g) <= n)%nat) -> (forall g, In g G2 -> (length (gcoefs g) <= n)%nat) ->
+  (exists p, in_gens n G1 p) -> (exists q, in_gens n G2 q) ->
+  (forall x, time_elapse_set n G1 G2 x -> sat_sys t x) ->
+  forall x, in_gens n (te_gens G1 G2) x -> sat_sys t x.
+Proof.
+  intros W1 W2 [Wd1 Wd2] L1 L2 N1 N2 Hall x Hx. split.
+  - intros e He. apply eq_as_ineqs.
+    assert (Lg : (length (coefs (ge_of e)) <= n)%nat) by (cbn; now apply Wd1).
+    assert (Ll : (length (coefs (le_of e)) <= n)%nat) by (unfold le_of, neg_c; cbn [coefs]; rewrite map_length; now apply Wd1).
+    split.
+    + apply (te_ineq_valid n G1 G2 (ge_of e) W1 W2 Lg L1 L2 N1 N2); [|exact Hx].
+      intros y Hy. apply (eq_as_ineqs e y). now apply (proj1 (Hall y Hy)).
+    + apply (te_ineq_valid n G1 G2 (le_of e) W1 W2 Ll L1 L2 N1 N2); [|exact Hx].
+      intros y Hy. apply (eq_as_ineqs e y). now apply (proj1 (Hall y Hy)).
+  - intros c Hc. apply (te_ineq_valid n G1 G2 c W1 W2 (Wd2 c Hc) L1 L2 N1 N2); [|exact Hx].
+    intros y Hy. now apply (proj2 (Hall y Hy)).
+Qed.
+
+(* ---------- time elapse: the generated set contains { p + t q } ---------- *)
+Lemma all_zero_z_gcoord g i : all_zero_z (gcoefs g) = true -> gcoord i g = 0%Z.
+Proof.
+  unfold all_zero_z, gcoord. rewrite forallb_forall. intros H.
+  destruct (nth_in_or_default i (gcoefs g) 0%Z) as [Hin|Hd]; [|exact Hd].
+  specialize (H _ Hin). apply Z.eqb_eq in H. now symmetry.
+Qed.
+
+Definition vcons (a : Q) (nu : nat -> Q) : nat -> Q := fun j => match j with O => a | S j' => nu j' end.
+
+Lemma dot_vcons l a nu : dot l (vcons a nu) 1 == dot l nu 0.
+Proof. apply dot_shift. intros t. reflexivity. Qed.
+
+Lemma dirs_weights t G2 : 0 <= t -> forall (mu : nat -> Q) k,
+  (forall j g, nth_error G2 j = Some g -> is_line g = false -> 0 <= mu (k + j)%nat) ->
+  exists nu : nat -> Q,
+    (forall j g, nth_error (flat_map dir_of G2) j = Some g -> is_line g = false -> 0 <= nu j) /\
+    dot (map pc_weight (flat_map dir_of G2)) nu 0 == 0 /\
+    dot (map p_weight (flat_map dir_of G2)) nu 0 == 0 /\
+    (forall i, dot (map (gcoord i) (flat_map dir_of G2)) nu 0 == t * dot (map (gcoord i) G2) mu k).
+Proof.
+  intros Ht. induction G2 as [|g G IH]; intros mu k Hmu.
+  - exists (fun _ => 0). cbn. repeat split; try reflexivity; [intros j g H; destruct j; discriminate|intros i; ring].
+  - destruct (IH mu (S k)) as [nu [N1 [N2 [N3 N4]]]].
+    { intros j g' Hj Hl. replace (S k + j)%nat with (k + S j)%nat by lia. now apply (Hmu (S j) g'). }
+    cbn [flat_map map dot].
+    assert (KEEP : forall r, dir_of g = [r] -> pc_weight r = 0%Z -> p_weight r = 0%Z -> (forall i, gcoord i r = gcoord i g) ->
+                   (is_line r = false -> 0 <= mu k) ->
+      exists nu0 : nat -> Q,
+        (forall j g0, nth_error ([r] ++ flat_map dir_of G) j = Some g0 -> is_line g0 = false -> 0 <= nu0 j) /\
+        dot (map pc_weight ([r] ++ flat_map dir_of G)) nu0 0 == 0 /\
+        dot (map p_weight ([r] ++ flat_map dir_of G)) nu0 0 == 0 /\
+        (forall i, dot (map (gcoord i) ([r] ++ flat_map dir_of G)) nu0 0
+                   == t * (inject_Z (gcoord i g) * mu k + dot (map (gcoord i) G) mu (S k)))).
+    { intros r _ Hpc Hpw Hco Hsg. exists (vcons (t * mu k) nu). split; [|split; [|split]].
+      - intros j g0 Hj Hl. destruct j as [|j]; cbn [app nth_error] in Hj; cbn [vcons].
+        + injection Hj as <-. specialize (Hsg Hl). nra.
+        + now apply (N1 j g0).
+      - cbn [app map dot]. rewrite dot_vcons, N2, Hpc. change (inject_Z 0) with 0. cbn [vcons]. ring.
+      - cbn [app map dot]. rewrite dot_vcons, N3, Hpw. change (inject_Z 0) with 0. cbn [vcons]. ring.
+      - intros i. cbn [app map dot]. rewrite dot_vcons, N4, Hco. cbn [vcons]. ring. }
+    assert (M0 : is_line g = false -> 0 <= mu k).
+    { intros Hl. specialize (Hmu 0%nat g eq_refl Hl). now rewrite Nat.add_0_r in Hmu. }
+    unfold dir_of in *. destruct (gk g) eqn:K.
+    + apply (KEEP g eq_refl); [unfold pc_weight; now rewrite K|unfold p_weight; now rewrite K|reflexivity|exact M0].
+    + apply (KEEP g eq_refl); [unfold pc_weight; now rewrite K|unfold p_weight; now rewrite K|reflexivity|exact M0].
+    + destruct (all_zero_z (gcoefs g)) eqn:Z.
+      * exists nu. cbn [app]. split; [exact N1|]. split; [exact N2|]. split; [exact N3|].
+        intros i. rewrite N4, (all_zero_z_gcoord g i Z). change (inject_Z 0) with 0. ring.
+      * apply (KEEP _ eq_refl); [reflexivity|reflexivity|reflexivity|]. intros _. apply M0. unfold is_line. now rewrite K.
+    + destruct (all_zero_z (gcoefs g)) eqn:Z.
+      * exists nu. cbn [app]. split; [exact N1|]. split; [exact N2|]. split; [exact N3|].
+        intros i. rewrite N4, (all_zero_z_gcoord g i Z). change (inject_Z 0) with 0. ring.
+      * apply (KEEP _ eq_refl); [reflexivity|reflexivity|reflexivity|]. intros _. apply M0. unfold is_line. now rewrite K.
+Qed.
+
+Theorem time_elapse_contains n G1 G2 x : time_elapse_set n G1 G2 x -> in_gens n (te_gens G1 G2) x.
+Proof.
+  intros [p [q [t [[mu1 [A1 [A2 [A3 A4]]]] [[mu2 [B1 [B2 [B3 B4]]]] [Ht Hx]]]]]].
+  destruct (dirs_weights t G2 Ht mu2 0%nat) as [nu [N1 [N2 [N3 N4]]]]; [exact B1|].
+  set (m := length G1). set (D := flat_map dir_of G2) in *.
+  set (mu := fun j => if (j <? m)%nat then mu1 j else nu (j - m)%nat).
+  assert (E : forall h : gen -> Z, dot (map h (G1 ++ D)) mu 0 == dot (map h G1) mu1 0 + dot (map h D) nu 0).
+  { intros h. rewrite map_app, dot_app, map_length. cbn [Nat.add]. fold m.
+    rewrite (dot_prefix (map h G1) mu mu1 0%nat).
+    - rewrite (dot_shift (map h D) mu nu m 0%nat); [reflexivity|]. intros j. unfold mu.
+      destruct (Nat.ltb_spec (m + j) m); [lia|]. cbn [Nat.add]. replace (m + j - m)%nat with j by lia. reflexivity.
+    - intros i Hi. rewrite map_length in Hi. fold m in Hi. unfold mu. destruct (Nat.ltb_spec i m); [reflexivity|lia]. }
+  exists mu. unfold te_gens. fold D. split; [|split; [|split]].
+  - intros j g Hj Hl. unfold mu. destruct (Nat.ltb_spec j m) as [Hlt|Hge].
+    + rewrite nth_error_app1 in Hj by exact Hlt. now apply (A1 j g).
+    + rewrite nth_error_app2 in Hj by (fold m; lia). fold m in Hj. now apply (N1 (j - m)%nat g).
+  - rewrite E, A2, N2. ring.
+  - rewrite E, N3. lra.
+  - intros i Hi. rewrite E, N4, <- (A4 i Hi), <- (B4 i Hi). now apply Hx.
+Qed.
